@@ -109,7 +109,7 @@ def run(ck):
             accepted = [k for k in cls if k in listed]
             in_scope = sw in scope
             if in_scope:
-                # scope_sound (Properties/C01_shake1.v): the theorem says the verdict is preserved for
+                # scope_all_sound (Properties/C01_matrix.v; scope_sound for the sets without matrix): the verdict is preserved for
                 # this rule and switch set on every document and hash order: no known class applies
                 accepted = []
             if agrees and accepted:
